@@ -331,6 +331,7 @@ func Config(t *rapid.T) hist.Cfg {
 	}
 	c.ServerID = rapid.SampledFrom([]uint32{1, 2, 1<<31 - 1, 1 << 31, 1<<32 - 1, 12345}).Draw(t, "master_id")
 	c.CreateTS = rapid.Uint32Range(1, 1<<31).Draw(t, "create_ts")
+	c.PadBits = rapid.IntRange(0, 2).Draw(t, "pad_bits")
 	return c
 }
 
@@ -354,6 +355,10 @@ func History(t *rapid.T, o HistOpt) *hist.History {
 		rotLeft = rapid.IntRange(0, o.Rotations).Draw(t, "nrot")
 	}
 	fileNo := rapid.IntRange(1, 999990).Draw(t, "file_no")
+	if rapid.IntRange(0, 3).Draw(t, "file_no_b") == 0 {
+		// incl. the 999999 -> 1000000 roll-over, where the next name sorts lower as a string
+		fileNo = rapid.SampledFrom([]int{1, 9, 99, 999998, 999999}).Draw(t, "file_no_edge")
+	}
 	fname := func(n int) string { return fmt.Sprintf("mysql-bin.%06d", n) }
 	h.FirstFile = fname(fileNo)
 	maxType := 27
